@@ -65,6 +65,9 @@ def configs(tier):
                     if entry == 'Gillespie_SIS':
                         c['truncate'] = True
                     out.append(c)
+    for zero in (None, 'tau', 'gamma'):
+        for R0 in ([], [1]):
+            out.append(dict(family='infnodes', entry='get_infected_nodes', graph='P3', I0=[0], R0=R0, zero=zero, tags=['infnodes', 'zero:%s' % zero] + (['R0'] if R0 else [])))
     from checks import C03, C15
     for c in C03.configs(tier):
         if c['graph'] in ('P3', 'D:3:01,12') and c['mode'] in ('plain', 'weight_label') and (c['spec'] in ('SIS', 'SEIR') or c.get('minimal_spec')):
@@ -418,7 +421,31 @@ def run_ode_explicit(h, cfg):
         eng.div_guard = True
 
 
+def run_infnodes(h, cfg):
+    import EoN
+    r = simruns.setup(cfg)
+    g0 = snap_graph(r.G)
+    kw = {'initial_infecteds': list(r.I0)}
+    if r.R0:
+        kw['initial_recovereds'] = list(r.R0)
+    res = h.call_must_succeed('no-exception', EoN.get_infected_nodes, r.G, r.tau, r.gamma, **kw)
+    if res is None:
+        return None
+    if same_graph(g0, snap_graph(r.G)):
+        h.require('graph-unchanged', True)
+    else:
+        h.fail('graph-unchanged', {'after': str(snap_graph(r.G))[:300]})
+    st, res2 = h.call(EoN.get_infected_nodes, r.G, r.tau, r.gamma, **kw)
+    if st == 'exc':
+        h.fail('second-call-succeeds', {'exception': repr(res2)[:300]})
+    else:
+        h.require('second-call-succeeds', True)
+    return None
+
+
 def run_path(h, cfg):
+    if cfg['family'] == 'infnodes':
+        return run_infnodes(h, cfg)
     return {'sim': run_sim, 'simple': run_simple, 'complex': run_complex, 'ode': run_ode, 'ode-explicit': run_ode_explicit}[cfg['family']](h, cfg)
 
 
